@@ -63,7 +63,7 @@ fn gen_path(rng: &mut Rng) -> String {
             _ => "new.txt".into(),
         }
     };
-    match rng.below(20) {
+    match rng.below(22) {
         0 => "{OUT}/secret.txt".into(),
         1 => "{SIB}/b.txt".into(),
         2 => "{ROOT}/a.txt".into(),
@@ -77,6 +77,9 @@ fn gen_path(rng: &mut Rng) -> String {
         10 => "".into(),
         11 => "{CWD}/c.txt".into(),
         12 => "../cwd/c.txt".into(),
+        // backslashes are ordinary file-name characters here: these are names INSIDE the root
+        13 => "..\\outside\\secret.txt".into(),
+        14 => "sub\\..\\..\\outside\\d\\inner.txt".into(),
         _ => {
             let n = rng.range(1, 5);
             let mut parts: Vec<String> = (0..n).map(|_| comp(rng)).collect();
@@ -134,6 +137,9 @@ pub fn execute(sc: &Scenario, env: &Env) -> (Outcome, RunStats) {
     std::fs::write(cwd_other.join("c.txt"), "cwd secret\n").ok();
     // relative names that exist both in the other cwd and (differently) in the root
     std::fs::write(cwd_other.join("a.txt"), "cwd a (wrong base)\n").ok();
+    // a file inside the root whose NAME contains backslashes and dots (the other such name of the
+    // grammar does not exist)
+    std::fs::write(root.join("..\\outside\\secret.txt"), "inside, odd name\n").ok();
 
     let prev_cwd = std::env::current_dir().ok();
     let cwd = if sc.cwd_is_root { root.clone() } else { cwd_other.clone() };
@@ -186,6 +192,7 @@ pub fn execute(sc: &Scenario, env: &Env) -> (Outcome, RunStats) {
 
     let mut hash: u64 = 0xcbf2_9ce4_8422_2325;
     let mut violation: Option<Violation> = None;
+    let mut odd_ckpt: Option<String> = None;
     wsenv::monitor_begin(std::path::Path::new(""), 7);
     for (k, r) in sc.reqs.iter().enumerate() {
         let path = subst(&r.path);
@@ -228,11 +235,24 @@ pub fn execute(sc: &Scenario, env: &Env) -> (Outcome, RunStats) {
             Tool::CheckpointCreate => {
                 let ev = te.create_checkpoint("c", vec![PathBuf::from(&path)]);
                 let failed = ev.iter().any(|e| matches!(e.kind, EventKind::CheckpointFailed { .. }));
+                if let Some(id) = ev.iter().find_map(|e| match &e.kind {
+                    EventKind::CheckpointCreated { checkpoint_id, .. } => Some(checkpoint_id.clone()),
+                    _ => None,
+                }) {
+                    if path.contains('\\') {
+                        odd_ckpt = Some(id);
+                        // edit the odd-named file so that a rewind has something to restore
+                        let _ = std::fs::write(root.join("..\\outside\\secret.txt"), "edited after checkpoint\n");
+                    }
+                }
                 (failed, tool_text(&ev))
             }
             Tool::Rewind => {
                 // path-like checkpoint ids, and occasionally the real one
-                let id = if r.path.contains("a.txt") && !r.path.contains("..") {
+                let id = if r.path.contains('\\') && odd_ckpt.is_some() {
+                    // rewind to the checkpoint taken of the backslash-named file
+                    odd_ckpt.clone().unwrap()
+                } else if r.path.contains("a.txt") && !r.path.contains("..") {
                     real_ckpt.clone().unwrap_or_else(|| "none".into())
                 } else if r.path.contains("secret") {
                     format!("../../../../outside/staged/evil")
@@ -407,7 +427,7 @@ impl Check for C13 {
         out.into_iter().map(|s| serde_json::to_value(s).unwrap()).collect()
     }
     fn rule(&self) -> String {
-        "one evaluation = 2-16 requests (read, write, ls, grep, apply_patch add/update/delete/move-to, checkpoint create, checkpoint rewind incl. path-like ids, bash cwd) with path strings from a grammar (absolute inside/outside/sibling-with-shared-prefix, '..' at any position, '.', empty, trailing and doubled slashes, whitespace-padded, very long, unicode) against the real tool runner with the real auto-checkpoint hook, with the process cwd equal to or different from the root; after each request every file-system effect of the process (opens for reading included) is checked against the root, a sentinel tree around the root is compared, escaping paths must be refused and a refusal must leave the whole root incl. .rip/checkpoints unchanged; distinct = hash of (tool, path, outcome) sequence and cwd mode; non-trivial = at least 2 requests".into()
+        "one evaluation = 2-16 requests (read, write, ls, grep, apply_patch add/update/delete/move-to, checkpoint create, checkpoint rewind incl. path-like ids, bash cwd) with path strings from a grammar (absolute inside/outside/sibling-with-shared-prefix, '..' at any position, '.', empty, trailing and doubled slashes, whitespace-padded, very long, unicode, in-root file names made of backslashes and dots that are checkpointed and rewound) against the real tool runner with the real auto-checkpoint hook, with the process cwd equal to or different from the root; after each request every file-system effect of the process (opens for reading included) is checked against the root, a sentinel tree around the root is compared, escaping paths must be refused and a refusal must leave the whole root incl. .rip/checkpoints unchanged; distinct = hash of (tool, path, outcome) sequence and cwd mode; non-trivial = at least 2 requests".into()
     }
     fn assumptions(&self) -> Vec<String> {
         vec![
